@@ -188,6 +188,23 @@ def wl_bloom(ctx, rng, case):
                 r.clear()
                 same(ctx, before, state_bloom(f, path), f"{case.desc['cls']} after a.{name}(a) and a clear of the RESULT")
             del r
+        # ---- results of set operations with ANOTHER filter (in either role) are changed afterwards: both operands keep their state
+        for name in ("union", "intersection"):
+            for recv, arg, tag in ((f, other, f"a.{name}(b)"), (other, f, f"b.{name}(a)")):
+                r = getattr(recv, name)(arg)
+                if r is not None and r.elements_added >= 0:
+                    (r.add("only-in-the-result", 2) if counting else r.add("only-in-the-result"))
+                    if counting and keys:
+                        kk = rng.choice(keys)
+                        if r.check(kk) > 0 and len(set(h % r.number_bits for h in r.hashes(kk))) == r.number_hashes:
+                            r.remove(kk, r.check(kk))
+                    same(ctx, before, state_bloom(f, path), f"{case.desc['cls']} after {tag} and changes to the RESULT")
+                    same(ctx, other_before, state_bloom(other), f"the other operand after {tag} and changes to the RESULT")
+                    r.clear()
+                    same(ctx, before, state_bloom(f, path), f"{case.desc['cls']} after {tag} and a clear of the RESULT")
+                    same(ctx, other_before, state_bloom(other), f"the other operand after {tag} and a clear of the RESULT")
+                    ctx.count("results_changed_operands_compared")
+                del r
         import gc
 
         gc.collect()
@@ -246,6 +263,14 @@ def wl_expanding(ctx, rng, case):
         f = cls(est_elements=est, false_positive_rate=rate, **extra, **bl.kw_hash(hf))
         for _ in range(rng.randint(0, 20)):
             f.add(rng.choice(keys), force=rng.random() < 0.1) if rng.random() < 0.9 else f.push()
+        for _ in range(rng.choice([0, 0, 0, 1, 2])):
+            # states a refused call leaves behind (hash list too short / not integers: raises part-way)
+            kk = rng.choice(keys)
+            hs = list((hf or _dflt())(kk, 12))
+            try:
+                f.add_alt(hs[: rng.randint(0, 1)] if rng.random() < 0.6 else hs[:1] + ["x"] * 11, force=rng.random() < 0.5)
+            except Exception:
+                ctx.count("states_after_a_refused_call")
         if rng.random() < 0.4:
             f = cls.frombytes(bytes(f), **extra, **bl.kw_hash(hf))
             case.op("state-reloaded")
@@ -316,6 +341,21 @@ def wl_sketch(ctx, rng, case):
                 n = rng.randint(1, 5)
                 f.add(k, n)
                 case.op("add", k, n)
+        for _ in range(rng.choice([0, 0, 0, 1, 2])):
+            # states a refused call leaves behind: too few hashes for the depth, an unsupported operation of the subclass
+            kk = rng.choice(keys)
+            try:
+                r = rng.random()
+                if r < 0.4:
+                    f.add_alt(*(([kk] if extra else []) + [f.hashes(kk)[: rng.randint(0, max(0, d - 1))], rng.randint(1, 3)]))
+                elif r < 0.7 and cls_name != "HeavyHitters":
+                    f.remove_alt(*(([kk] if extra else []) + [f.hashes(kk)[: rng.randint(0, max(0, d - 1))], 1]))
+                elif r < 0.85:
+                    f.join(mk()) if extra else f.join(P.CountMinSketch(width=w + 1, depth=d, **bl.kw_hash(hf)))
+                else:
+                    f.remove(kk) if cls_name == "HeavyHitters" else f.add_alt(*(([kk] if extra else []) + [["x"] * d, 1]))
+            except Exception:
+                ctx.count("states_after_a_refused_call")
         if f.elements_added == 0 and any(c != 0 for c in bytes(f)[:-16]):
             ctx.count("states_with_zero_total_but_nonzero_cells")
         if rng.random() < 0.3 and cls_name not in ("HeavyHitters", "StreamThreshold"):
